@@ -405,7 +405,7 @@ func checkC11(c *Ctx, r *Report) {
 }
 
 // callersPassDigest: every static caller passes a digest-derived value for parameter p.
-func callersPassDigest(c *Ctx, fn *ssa.Function, p *ssa.Parameter, okSources []string) bool {
+func callersPassDigest(c *Ctx, fn *ssa.Function, p *ssa.Parameter, okSources []string, depth ...int) bool {
 	idx := -1
 	for i, q := range fn.Params {
 		if q == p {
@@ -428,6 +428,13 @@ func callersPassDigest(c *Ctx, fn *ssa.Function, p *ssa.Parameter, okSources []s
 			return false
 		}
 		if !mentions(a[idx], func(v ssa.Value) bool { return isCallTo(v, okSources...) }, 8) {
+			// the caller may itself only pass its own parameter on (a helper extracted
+			// from a handler's callee): lift again, a bounded number of levels
+			if q, isP := nameRoot(a[idx]).(*ssa.Parameter); isP && len(depth) < 3 {
+				if callersPassDigest(c, topFunc(cs.Caller), q, okSources, append(depth, 1)...) {
+					continue
+				}
+			}
 			return false
 		}
 	}
